@@ -16,7 +16,7 @@ PROFILE = {'name': 'c01', 'spec': {}, 'opts': {}, 'medium_rate': 0.1, 'shipped_r
 
 def plan(tier):
     return {'cases_per_shard': 400 if tier == 'quick' else 9000,
-            'time_cap_s': 45 if tier == 'quick' else 560}
+            'time_cap_s': 90 if tier == 'quick' else 560}
 
 
 def run_case(cs, ctx):
